@@ -49,6 +49,11 @@ type sys struct {
 	ref              map[int]block // reference: live holder -> block (from API observations)
 	viols            []explore.Viol
 	nAlloc, nDealloc int // successful alloc/dealloc operations that must be logged
+	// fault dimension of the file-backed configurations: one operation of the history runs while the log directory
+	// is unreachable (renamed away and back). Records written DURING the fault may be lost and are not judged;
+	// every record written after it must be on disk.
+	faultUsed        bool
+	fAlloc, fDealloc int // successful operations executed under the fault (their records are optional)
 }
 
 func subIP(i int) net.IP { return net.IPv4(100, 64, 0, byte(10+i)) }
@@ -99,6 +104,11 @@ func (s *sys) Ops() []string {
 	for i := 0; i < s.c.subs; i++ {
 		ops = append(ops, fmt.Sprintf("Allocate(%d)", i), fmt.Sprintf("Deallocate(%d)", i))
 	}
+	if s.logDir != "" && !s.faultUsed { // at most one deviation per history
+		for i := 0; i < s.c.subs; i++ {
+			ops = append(ops, fmt.Sprintf("Allocate(%d)@nodir", i), fmt.Sprintf("Deallocate(%d)@nodir", i))
+		}
+	}
 	return ops
 }
 
@@ -108,6 +118,19 @@ func (s *sys) v(kind, site, f string, a ...any) {
 
 func (s *sys) Apply(op string) string {
 	var i int
+	fault := strings.HasSuffix(op, "@nodir")
+	if fault {
+		op = strings.TrimSuffix(op, "@nodir")
+		s.faultUsed = true
+		if err := os.Rename(s.logDir, s.logDir+".away"); err != nil {
+			panic(err)
+		}
+		defer func() {
+			if err := os.Rename(s.logDir+".away", s.logDir); err != nil {
+				panic(err)
+			}
+		}()
+	}
 	switch {
 	case strings.HasPrefix(op, "Allocate("):
 		fmt.Sscanf(op, "Allocate(%d)", &i)
@@ -125,6 +148,9 @@ func (s *sys) Apply(op string) string {
 			}
 		} else {
 			s.nAlloc++
+			if fault {
+				s.fAlloc++
+			}
 		}
 		s.ref[i] = b
 		return fmt.Sprintf("%s:%d-%d", b.pub, b.start, b.end)
@@ -136,6 +162,9 @@ func (s *sys) Apply(op string) string {
 		}
 		if _, held := s.ref[i]; held {
 			s.nDealloc++
+			if fault {
+				s.fDealloc++
+			}
 		}
 		delete(s.ref, i)
 		return "ok"
@@ -145,7 +174,21 @@ func (s *sys) Apply(op string) string {
 
 func (s *sys) Fingerprint() string {
 	return deepdump.Dump(s.m, deepdump.Options{IgnoreTimes: true, SkipTypes: map[string]bool{"nat.Logger": true, "nat.ManagerConfig": true}}) +
-		fmt.Sprint(s.buf.Len() > 0)
+		fmt.Sprint(s.buf.Len() > 0) + s.logFiles()
+}
+
+// logFiles: the observable state of a file-backed log (the logger object itself is not part of the fingerprint):
+// size of the current file, number of rotated files, whether the fault was used.
+func (s *sys) logFiles() string {
+	if s.logDir == "" {
+		return ""
+	}
+	var cur int64 = -1
+	if fi, err := os.Stat(filepath.Join(s.logDir, "nat.log")); err == nil {
+		cur = fi.Size()
+	}
+	names, _ := filepath.Glob(filepath.Join(s.logDir, "nat.log.*"))
+	return fmt.Sprintf("|file=%d rotated=%d fault=%v/%d/%d", cur, len(names), s.faultUsed, s.fAlloc, s.fDealloc)
 }
 
 // Check: N1 non-overlap, N2 range/size, N3 stability via GetAllocation, N4 log attribution.
@@ -236,9 +279,32 @@ func (s *sys) Check() []explore.Viol {
 		PortEnd    int    `json:"port_end"`
 		PublicPort int    `json:"public_port"`
 	}
+	// first pass: count the records. With a fault in the history the records of the operation that ran under it are
+	// optional; if any of them is missing the log is (legitimately) not a complete history and only the counts of
+	// the records written outside the fault are demanded.
+	lines := strings.Split(strings.TrimSpace(s.buf.String()), "\n")
+	ca, cr := 0, 0
+	for _, line := range lines {
+		var r rec
+		if json.Unmarshal([]byte(line), &r) == nil {
+			switch r.EventType {
+			case "port_block_assign", "allocate":
+				ca++
+			case "port_block_release", "deallocate":
+				cr++
+			}
+		}
+	}
+	if s.faultUsed && (ca != s.nAlloc || cr != s.nDealloc) {
+		if ca < s.nAlloc-s.fAlloc || ca > s.nAlloc || cr < s.nDealloc-s.fDealloc || cr > s.nDealloc {
+			s.v("log-missing", "Logger", "%d allocations / %d releases happened (%d / %d of them while the log directory was unreachable), log has %d / %d records: records written AFTER the fault are missing",
+				s.nAlloc, s.nDealloc, s.fAlloc, s.fDealloc, ca, cr)
+		}
+		return s.viols
+	}
 	live := map[string]block{} // private ip -> block, reconstructed from the log only
 	assigns, releases := 0, 0
-	for _, line := range strings.Split(strings.TrimSpace(s.buf.String()), "\n") {
+	for _, line := range lines {
 		if line == "" {
 			continue
 		}
